@@ -2,7 +2,7 @@
    The controllers themselves are translated from the working tree on every run (build/gen/GenC09.v) and the hypotheses of the
    section theorems below (the handler for a key has the counting / appending shape, no other handler writes the field) are
    discharged for every bundled version by generated instance theorems (build/gen/Inst_C09.v). *)
-From RU Require Import Base Summary SummaryProofs.
+From RU Require Import Base Summary SummaryProofs SummaryProofs2.
 Local Open Scope Z_scope.
 
 (* totals: counted each time, under their own (victim, attacker) path and no other, whatever else is delivered in between *)
@@ -19,6 +19,15 @@ Theorem C09_totals_are_sums : forall n es d d', n <> O -> Forall (fun e => lengt
 Proof. exact count_all_total. Qed.
 Theorem C09_integer_amounts_add_up : forall zs z, add_all (PInt z) (map PInt zs) = Ok (PInt (z + fold_right Z.add 0 zs)).
 Proof. exact add_all_ints. Qed.
+(* counting handlers that are not loops (planes, achievements, old-style ribbons): local assignments (which may read the roster the
+   call finds), then  f.setdefault(keys..., 0); f[keys...] += amt *)
+Theorem C09_count_stmt_history : forall ctl K f ps lets keys amt,
+  assoc_get K (c_handlers ctl) = Some {| h_params := ps; h_body := map Simple (lets ++ [SSetdef f keys; SAugAdd f keys amt]) |} ->
+  forallb is_let lets = true -> forallb pure keys = true -> pure amt = true ->
+  (forall K' h, K' <> K -> assoc_get K' (c_handlers ctl) = Some h -> ~ In f (writes_h h)) ->
+  forall evs st st' d, get_dict_field st f = Ok d -> run_events_strict ctl st evs = (st', None) ->
+  exists es d', dyn_entries ctl K ps lets keys amt st evs = Ok es /\ count_all d es = Ok d' /\ get_dict_field st' f = Ok d'.
+Proof. exact count_stmt_history. Qed.
 (* ordered list of deaths: once per call, in stream order *)
 Theorem C09_append_history : forall ctl K f ps e,
   assoc_get K (c_handlers ctl) = Some {| h_params := ps; h_body := [Simple (SAppend f e)] |} -> pure_t e = true ->
@@ -32,6 +41,10 @@ Theorem C09_roster_last_writer : forall umap uni recs players p',
   exists cs, converted umap uni recs = Ok cs /\
              forall pid key, roster_lookup p' pid key = last_writer cs pid key (roster_lookup players pid key).
 Proof. exact merge_records_last_writer. Qed.
+(* ... over a whole history: the roster is the fold of the merges of the roster calls in stream order; no other call touches it *)
+Theorem C09_roster_history : forall ctl, roster_handlers_simple ctl = true ->
+  forall evs st st', run_events_strict ctl st evs = (st', None) -> players_fold ctl (st_players st) evs = (st_players st', None).
+Proof. exact roster_history. Qed.
 (* nothing from one event leaks into another field *)
 Theorem C09_nothing_leaks : forall ctl st ev st' er g,
   apply_event ctl st ev = (st', er) ->
@@ -96,6 +109,8 @@ Print Assumptions C09_totals_history.
 Print Assumptions C09_totals_are_sums.
 Print Assumptions C09_integer_amounts_add_up.
 Print Assumptions C09_append_history.
+Print Assumptions C09_count_stmt_history.
+Print Assumptions C09_roster_history.
 Print Assumptions C09_roster_last_writer.
 Print Assumptions C09_nothing_leaks.
 Print Assumptions C09_roster_untouched_by_other_calls.
